@@ -20,7 +20,7 @@ PY
 }
 demo=$(ls $o/*.rs | head -1)
 # 1. pristine demo passes
-cp $demo $dest
+mkdir -p $(dirname $dest); cp $demo $dest
 if cargo test --offline -p $pkg $extra --test $tname >$o/confirm_demo_pristine.log 2>&1; then res $o demo_pristine pass; else res $o demo_pristine FAIL; fi
 # 2. with patch: demo fails
 if ! git apply $o/patch.diff; then res $o apply FAIL; exit 1; fi
